@@ -110,6 +110,7 @@ type VH struct {
 	R    int    `json:"r,omitempty"`
 	Buf  int    `json:"buf,omitempty"`
 	Echo bool   `json:"echo,omitempty"`
+	Fail bool   `json:"fail,omitempty"` // kind "udp": return an error after the datagrams were read
 }
 
 func (*VH) CaddyModule() caddy.ModuleInfo {
@@ -264,6 +265,9 @@ func (h *VH) handleUDP(cx *layer4.Connection, rec *Recorder) error {
 		g("return", a, client)
 	}
 	rec.Add(Ev{"e": "End", "a": a})
+	if h.Fail {
+		return errors.New("verif_h: handler failed (as a proxy does when no upstream is available)")
+	}
 	return nil
 }
 
